@@ -286,3 +286,26 @@ func boltCurAt(m *boltCur) ([]byte, []byte) {
 	}
 	return []byte(b.keys[m.pos]), b.vals[m.pos]
 }
+
+// BoltCursorSeek moves to the first key >= seek (nil, nil past the end).
+func BoltCursorSeek(c *bolt.Cursor, seek []byte) ([]byte, []byte) {
+	m := boltCurs[c]
+	i, _ := m.ref.bkt.find(string(seek))
+	m.pos = i
+	return boltCurAt(m)
+}
+
+// BoltCursorDelete removes the pair the cursor is on.
+func BoltCursorDelete(c *bolt.Cursor) error {
+	m := boltCurs[c]
+	if !boltTxs[m.ref.tx].writable {
+		return bolt.ErrTxNotWritable
+	}
+	b := m.ref.bkt
+	if m.pos < 0 || m.pos >= len(b.keys) {
+		return nil
+	}
+	b.keys = append(b.keys[:m.pos], b.keys[m.pos+1:]...)
+	b.vals = append(b.vals[:m.pos], b.vals[m.pos+1:]...)
+	return nil
+}
